@@ -3,12 +3,26 @@ body, fn items passed as arguments, and Drop impls of locals that are dropped.""
 from .facts import callee_path
 
 
+def _norm(s):
+    """Type text without lifetimes and whitespace (`SnmpOid<'a>` and `SnmpOid<'_>` name the same impl target)."""
+    import re
+    return re.sub(r"'\w+\s*,?\s*", "", s or "").replace("<>", "").replace(" ", "")
+
+
 def build(facts):
     g = {}
     drop_impls = {}
     for b in facts.body_list:
         if b.impl_trait == "std::ops::Drop" and b.name == "drop":
             drop_impls[b.impl_self] = b
+    # `x.into()` / `x.try_into()` resolve to the blanket impls of core, which call the local `From` / `TryFrom` impl: the edge
+    # to that impl is added here (its body can panic like any other)
+    import re as _re
+    conv = {}
+    for b in facts.body_list:
+        m_ = _re.search(r"<impl std::convert::(From|TryFrom)<(.*)> for (.*)>::(from|try_from)$", b.path)
+        if m_:
+            conv.setdefault((m_.group(1), _norm(m_.group(2)), _norm(m_.group(3))), []).append(b.path)
     for body in facts.body_list:
         out = set()
         for c in facts.closures_of(body.path):
@@ -20,6 +34,15 @@ def build(facts):
             if t["k"] == "call":
                 for cb in facts.resolve_call(t):
                     out.add(cb.path)
+                cp = callee_path(t) or ""
+                if cp.endswith("std::convert::Into<U>>::into") or cp.endswith("std::convert::TryInto<U>>::try_into") or \
+                        cp in ("std::convert::Into::into", "std::convert::TryInto::try_into"):
+                    ca = (t["callee"].get("resolved") or {}).get("args") or t["callee"].get("args") or []
+                    names = [_norm(a.get("s", "")) for a in ca if isinstance(a, dict)]
+                    if len(names) >= 2:
+                        kind = "TryFrom" if "try_into" in cp else "From"
+                        for q in conv.get((kind, names[0], names[1]), []):
+                            out.add(q)
                 for a in t["args"]:
                     v = (a.get("const") or {}).get("v") or {}
                     if "fn" in v and v["fn"] in facts.bodies:
